@@ -68,6 +68,7 @@ impl OutputFormat for IceDraw {
             while x < buf.get_width() {
                 let ch = buf.get_char((x, y));
                 let mut rle_count = 1;
+                let mut wrote_run_header = false;
                 if options.compress {
                     while x + rle_count < buf.get_width() && rle_count < (u16::MAX) as i32 {
                         if ch != buf.get_char((x + rle_count, y)) {
@@ -81,6 +82,7 @@ impl OutputFormat for IceDraw {
 
                         result.push(rle_count as u8);
                         result.push((rle_count >> 8) as u8);
+                        wrote_run_header = true;
                     } else {
                         rle_count = 1;
                     }
@@ -92,7 +94,7 @@ impl OutputFormat for IceDraw {
                 }
 
                 // fake repeat
-                if ch == 1 && attr == 0 && rle_count == 1 {
+                if ch == 1 && attr == 0 && rle_count == 1 && !wrote_run_header {
                     result.extend([1, 0, 1, 0]);
                 }
                 result.push(ch as u8);
